@@ -1,15 +1,15 @@
 (* Step model of iceoryx2-bb/lock-free/src/spsc/safely_overflowing_index_queue.rs.
    The queue has capacity + 1 slots; slot of position p is p % (capacity + 1).
-     push(v): w := load write_position (Acquire); r := load read_position (Relaxed);
+     push(v): w := load write_position (Acquire); r := load read_position (Acquire);
               full := (w == r + capacity);
               cell(w % m).get(); write v;
               store write_position := w + 1 (Release);
               if full && CAS read_position r -> r+1 (AcqRel / Relaxed) succeeds
                    { cell(r % m).get(); read old; return Some(old) } else return None
-     pop():   r := load read_position (Relaxed); w := load write_position (Acquire);
+     pop():   r := load read_position (Acquire); w := load write_position (Acquire);
               if r == w return None;
               loop { cell(r % m).get(); read val;
-                     CAS read_position r -> r+1 (Relaxed / Acquire): Ok => return Some(val)
+                     CAS read_position r -> r+1 (Release / Acquire): Ok => return Some(val)
                         Err(cur) => { r := cur; if r == load write_position (Acquire) return None } } }
    One step = one of these accesses. *)
 From V Require Import model.Base model.Conc model.Events.
@@ -91,11 +91,11 @@ Definition step (t : nat) (g : ogst) (l : olst) : option (ogst * olst * list ev)
       else Some (g, set_l l p Idle, [])
     | OPop :: p =>
       if holdsC l
-      then Some (g, set_l l p (PopLoadWp (rp g)), [EAcc 40 B_RP 0 KLoad Relaxed Relaxed (rp g) 0 true])
+      then Some (g, set_l l p (PopLoadWp (rp g)), [EAcc 40 B_RP 0 KLoad Acquire Acquire (rp g) 0 true])
       else Some (g, set_l l p Idle, [])
     end
   | PushLoadRp v w =>
-    Some (g, set_l l (prog l) (PushWrite v w (rp g)), [EAcc 31 B_RP 0 KLoad Relaxed Relaxed (rp g) 0 true])
+    Some (g, set_l l (prog l) (PushWrite v w (rp g)), [EAcc 31 B_RP 0 KLoad Acquire Acquire (rp g) 0 true])
   | PushWrite v w r =>
     let i := N.modulo w (m_of g) in
     Some (upd_g g (wp g) (rp g) (updN (slots g) i v) (ovf g) (pushed g) (removed g),
@@ -134,9 +134,9 @@ Definition step (t : nat) (g : ogst) (l : olst) : option (ogst * olst * list ev)
     if N.eqb (rp g) r
     then Some (upd_g g (wp g) (r + 1) (slots g) (ovf g) (pushed g) (removed g ++ [(v, true)]),
                set_l l (prog l) Idle,
-               [EAcc 43 B_RP 0 KCas Relaxed Acquire r (r + 1) true; ERet (v + 1)])
+               [EAcc 43 B_RP 0 KCas Release Acquire r (r + 1) true; ERet (v + 1)])
     else Some (g, set_l l (prog l) (PopRecheck (rp g)),
-               [EAcc 43 B_RP 0 KCas Relaxed Acquire (rp g) (r + 1) false])
+               [EAcc 43 B_RP 0 KCas Release Acquire (rp g) (r + 1) false])
   | PopRecheck r =>
     let e := EAcc 44 B_WP 0 KLoad Acquire Acquire (wp g) 0 true in
     if N.eqb r (wp g)
